@@ -106,6 +106,7 @@ class Driver:
         self.ctor = 0
         self.obj = None
         self.last_action = None
+        lib()
         from checkpoint_schedules import StorageType
         self._members = [StorageType.RAM, StorageType.DISK, StorageType.WORK,
                          StorageType.NONE]
